@@ -79,6 +79,22 @@ fn trace(rng: &mut Rng, depth: usize, top: bool) -> TTrace {
         _ => rng.below(21),
     };
     let mut frames: Vec<TFrame> = (0..nf).map(|_| frame(rng)).collect();
+    // frames that relate to the frame above them: a synthetic lambda / inner class of the same
+    // class, the same class again, line 0
+    for i in 1..frames.len().min(64) {
+        if rng.chance(1, 6) {
+            let above = frames[i - 1].class.clone();
+            frames[i].class = match rng.below(4) {
+                0 => format!("{above}$$ExternalSyntheticLambda{}", rng.below(3)),
+                1 => format!("{above}$1"),
+                2 => above,
+                _ => format!("{above}$Companion"),
+            };
+            if rng.chance(1, 2) {
+                frames[i].line = 0;
+            }
+        }
+    }
     let mut exception = if !top || rng.chance(5, 6) { Some(throwable(rng)) } else { None };
     if exception.is_none() && frames.is_empty() {
         if rng.chance(1, 2) {
